@@ -106,7 +106,7 @@ pub fn content(unit: u32, cap: u32) -> BoxedStrategy<Content> {
         4 => (unit..=unit.saturating_mul(6)).prop_map(sz),
         2 => (unit.saturating_mul(6)..=unit.saturating_mul(30)).prop_map(sz),
     ];
-    size_class
+    let generic = size_class
         .prop_flat_map(|len| {
             if len == 0 {
                 return Just(Content(vec![])).boxed();
@@ -120,8 +120,13 @@ pub fn content(unit: u32, cap: u32) -> BoxedStrategy<Content> {
                 }),
             ]
             .boxed()
-        })
-        .boxed()
+        });
+    prop_oneof![
+        40 => generic,
+        // the serialisation of an empty directory: a file chunk with the id of a tree blob
+        1 => Just(Content::lit(b"{\"nodes\":[]}\n".to_vec())),
+    ]
+    .boxed()
 }
 
 /// force the piece to exactly `len` bytes (re-using its kind)
